@@ -1,7 +1,23 @@
 (* Tie/C08_tie.v - side conditions on the regenerated tables of the visual printer. *)
-From Coq Require Import List.
+From Coq Require Import List Bool.
 From IGP Require Import Base.Str Model.Tree Model.Visual Gen.Wiring.
 Import ListNotations.
 
 Lemma translator_supported : wiring_unsupported = [].
+Proof. vm_compute. reflexivity. Qed.
+
+(* at every recursive call of the printer the five flags are handed over in parameter order and the
+   nesting level is passed unchanged, except into a nested statement (PrintTree) where it is level + 1:
+   this is what the model's single option record and its level arithmetic assume *)
+Definition FLAGS_SAME : str := $"printFlat,printBinary,includeAnnotations,includeDegreeOfVariability,moveActivationConditionsToFront,nestingLevel".
+Definition FLAGS_INC : str := $"printFlat,printBinary,includeAnnotations,includeDegreeOfVariability,moveActivationConditionsToFront,nestingLevel+1".
+Definition flag_site_ok (site : str * str) : bool :=
+  if beq_str (fst site) $"PrintTree" then beq_str (snd site) FLAGS_INC else beq_str (snd site) FLAGS_SAME.
+Definition count_sites (name : str) : nat := length (filter (fun s => beq_str (fst s) name) vis_flag_sites).
+
+Lemma flags_passed_in_order : forallb flag_site_ok vis_flag_sites = true.
+Proof. vm_compute. reflexivity. Qed.
+(* the model has exactly these recursive calls: 5 + 1 of PrintNodeTree (node printer, property printer,
+   component loop), 2 of PrintTree (statement entry, node-array entry), 1 of appendPropertyNodes *)
+Lemma recursive_call_sites : (count_sites $"PrintNodeTree", count_sites $"PrintTree", count_sites $"appendPropertyNodes") = (6, 2, 1).
 Proof. vm_compute. reflexivity. Qed.
